@@ -1,4 +1,6 @@
 //vf:dir util/queue
+//vf:import util/queue sync github.com/whatap/golib/zzvf/zsync native
+//vf:import util/list sync github.com/whatap/golib/zzvf/zsync native
 //vf:stub github.com/whatap/golib/util/dateutil.SystemNow ClockNow
 package queue
 
@@ -304,14 +306,11 @@ func zzIdx(ev []string, prefix string, from int) int {
 	return -1
 }
 
-// wake-up protocol (trace property over the ghost event log, executor only): every put
+// wake-up protocol (trace property over the lock event log — the ghost log under the
+// executor, the log of package zsync natively): every put
 // variant that adds an element broadcasts AFTER the add and BEFORE releasing the
 // condition's mutex; everything happens inside one critical section
 func ZZ_C11_WakeupProtocol() {
-	if zzvf.Native() {
-		zzvf.Reach("wakeup")
-		return
-	}
 	capa := zzvf.Choose(3)
 	q := NewRequestQueue(capa)
 	for i, n := 0, zzvf.Choose(3); i < n; i++ {
